@@ -69,6 +69,13 @@ def _duration(seq):
         return 0
 
 
+def _note_ons(seq):
+    try:
+        return [(e[0], e[2], e[3]) for e in observe.canon_value(seq)[0] if e[1] == "note_on" and e[3] is not None]
+    except Exception:
+        return []
+
+
 def _channels(seq):
     for lst in (observe.raw_abs(seq), observe.raw_rel(seq)):
         if lst is not None:
@@ -96,12 +103,20 @@ def g_add_abs(rng, seq):
     kind = rng.random()
     t = rng.choice([0, d, rng.randrange(0, d + 30)])
     ch = rng.choice(_channels(seq))
+    note = rng.randrange(30, 100)
+    if kind < 0.8 and rng.random() < 0.35:
+        # a message about a pitch the sequence already plays, at or shortly after one of its onsets: a re-strike, an early
+        # release, a velocity-0 note-on while the pitch sounds
+        ons = _note_ons(seq)
+        if ons:
+            t0, ch, note = ons[rng.randrange(len(ons))]
+            t = t0 + rng.choice([0, 1, 2, 3, 6, 12, rng.randrange(0, 30)])
     if kind < 0.55:
         # a well-formed pair is added by two events; single messages are legal too (normalise cleans up)
-        return {"msg": {"t": "note_on", "ch": ch, "time": t, "note": rng.randrange(30, 100),
-                        "velocity": rng.randrange(1, 128) if rng.random() < 0.93 else 0}}
+        return {"msg": {"t": "note_on", "ch": ch, "time": t, "note": note,
+                        "velocity": rng.randrange(1, 128) if rng.random() < 0.9 else 0}}
     if kind < 0.8:
-        return {"msg": {"t": "note_off", "ch": ch, "time": t, "note": rng.randrange(30, 100)}}
+        return {"msg": {"t": "note_off", "ch": ch, "time": t, "note": note}}
     if kind < 0.9:
         n, dn = rng.choice([(4, 4), (3, 4), (6, 8), (2, 4)])
         return {"msg": {"t": "time_signature", "ch": 0, "time": t, "numerator": n, "denominator": dn}}
